@@ -88,7 +88,14 @@ impl Prop for C10 {
         }
         let cfg = gen_cfg(&mut rng, variant, vc.hooks);
         let o = GenOpts { max_files: 5, max_ops: if big { 12 } else { 30 }, max_piece: 2 * c.block, max_total: if big { 2 * c.block + 2 * c.chunk } else { 8 * c.block }, interleave: rng.chance(4, 5), flushes: false, special_names: false, finalize: true, piece_scheds: false };
-        let ops = gen_ops(&mut rng, &c, &o);
+        let mut ops = gen_ops(&mut rng, &c, &o);
+        let mut cfg = cfg;
+        if !big && rng.chance(1, 25) {
+            let n = *rng.pick(&[65usize, 70, 129, 200, 257]);
+            let ll = rng.range(1, 3) as usize;
+            ops = gen_many_files(&mut rng, n, ll, 40);
+        }
+        maybe_many_recipients(&mut rng, &mut cfg, 40);
         let mut case = Case::new("C10", cfg, ops);
         let model = model_of(&case.ops);
         let n = if big { rng.range(10, 40) } else { rng.range(20, 200) } as usize;
@@ -114,7 +121,7 @@ impl Prop for C10 {
         let sink = SimSink::new(&Sched::Full);
         let w = s.write(&case.cfg, &case.ops, sink.clone());
         if w.panic.is_some() || w.from_config_err.is_some() || w.results.iter().any(Result::is_err) {
-            v.push(Violation::new("workload-write-failed", "write", format!("{:?} {:?}", w.panic, w.results.iter().find(|r| r.is_err()))));
+            v.push(Violation::new("workload-write-failed", "write", format!("writing the workload failed: panic {:?}, from_config {:?}, first failed call {:?}", w.panic, w.from_config_err, w.results.iter().find(|r| r.is_err()))));
             return v;
         }
         let image = Rc::new(sink.data());
